@@ -5,10 +5,12 @@
    recursion limit (known finding D12), regex cost, time — is explored on the real CLI by tools/harness/c01.py. *)
 From Coq Require Import ZArith NArith List.
 From I18n Require Import Lib.Outcome Model.IntExpr Model.PluralForms Generated.PyConsts
-  Proofs.Codomain Proofs.IntExprParse.
+  Proofs.Codomain Proofs.IntExprParse Proofs.IntExprComplete Proofs.IntExprLex Proofs.PluralFormsNoCrash.
 From I18n Require Model.MoParser Model.FmtC Model.Header Model.Messages Model.Dates Model.Ling Model.LingData Model.Encodings
   Proofs.EncodingsTable.
 From I18n Require Props.C09 Props.C11 Props.C15 Props.C16 Props.C18 Props.C19 Props.C20.
+From Coq Require Import Bool String.
+From I18n Require Model.Handlers Generated.RaiseSites Proofs.Handlers.
 Import ListNotations.
 Local Open Scope Z_scope.
 
@@ -24,6 +26,16 @@ Print Assumptions C01_range_analysis_total.
 Theorem C01_plural_parser_no_value_error : forall s, parse_string int_max_str_digits s <> Crash CValueError.
 Proof. exact (parse_string_no_value_error int_max_str_digits eq_refl). Qed.
 Print Assumptions C01_plural_parser_no_value_error.
+
+(* ... in fact no foreign exception at all: the parser model's fuel is sufficient for every token sequence
+   (C04_parse_fuel_sufficient), so its only failure is the syntax error; and nothing in check_plurals can crash *)
+Theorem C01_plural_parser_total : forall s c, parse_string int_max_str_digits s <> Crash c.
+Proof. exact (fun s c => parse_string_no_crash int_max_str_digits s c (digits_ok_unlimited (lex None s))). Qed.
+Print Assumptions C01_plural_parser_total.
+
+Theorem C01_check_plurals_total : forall inp c, check_plurals_core int_max_str_digits inp <> Crash c.
+Proof. exact check_plurals_core_no_crash. Qed.
+Print Assumptions C01_check_plurals_total.
 
 (* MO loader, through the except structure of Checker.check (C09) *)
 Theorem C01_mo_loader_total : forall asc dec f c, MoParser.checker_load asc dec f <> Crash c.
@@ -44,7 +56,6 @@ Print Assumptions C01_header_checks_total.
 (* message checks (C16) *)
 Theorem C01_message_checks_total : forall cfg cat,
   Messages.c_maxd cfg = 0%N -> Messages.ctl_complete (Messages.c_ctlnames cfg) ->
-  (forall e, In e cat -> Messages.scalar_text (Messages.me_msgid e) /\ Messages.scalar_text (Messages.me_msgstr e)) ->
   exists ds, Messages.check_messages cfg cat = Ok ds.
 Proof. exact C16.C16_no_crash. Qed.
 Print Assumptions C01_message_checks_total.
@@ -67,3 +78,70 @@ Theorem C01_charset_proposal_total : forall o, EncodingsTable.ascii_cased o -> f
   Encodings.propose_portable_encoding Encodings.real_enc_data o enc <> Crash c.
 Proof. exact C20.C20_proposal_never_asserts. Qed.
 Print Assumptions C01_charset_proposal_total.
+
+(* ---- the handlers: exception flow from the tool's own raise statements to the except clauses of the checker.
+   Generated/RaiseSites.v is rewritten from the python ast of /repo/lib on every run (tools/gen/gen_raisesites.py):
+   one row per (call, function mention or raise statement in lib/cli.py, lib/check/__init__.py, lib/check/msgformat/*.py,
+   exception class that the may-raise summary of the callee contains).  Every row is caught by an except clause of the
+   same function that names the class or a base of it (and tags, ignores or converts it), or by such a clause around every
+   call of that function in the checker, or is raised at import time, or is on the reviewed whitelist of the generator,
+   or is a recorded defect of /repo (listed exactly by C01_known_uncaught_errors below).  A removed or narrowed except
+   clause, or a new raise in a function the checker calls, makes this false.  What the table does not see: notes/C01.md. *)
+Theorem C01_every_own_error_is_caught : forallb Handlers.site_ok RaiseSites.checker_sites = true.
+Proof. vm_compute. reflexivity. Qed.
+Print Assumptions C01_every_own_error_is_caught.
+
+Theorem C01_no_site_left_uncaught : forall s, In s RaiseSites.checker_sites -> Handlers.handled s.
+Proof. exact (Proofs.Handlers.all_sites_handled _ C01_every_own_error_is_caught). Qed.
+Print Assumptions C01_no_site_left_uncaught.
+
+(* rows that are NOT caught and are recorded defects of /repo: none today (a KnownDefect entry of the generator must be mirrored here) *)
+Theorem C01_known_uncaught_errors : filter Handlers.is_known_defect RaiseSites.checker_sites = [].
+Proof. vm_compute. reflexivity. Qed.
+Print Assumptions C01_known_uncaught_errors.
+
+(* every raise statement of the summarised modules has a known class (an unknown one would be caught by nothing) *)
+Theorem C01_every_lib_raise_is_classified : forall r, In r RaiseSites.lib_raise_sites -> Handlers.r_status r <> Handlers.Unclassified.
+Proof. exact (Proofs.Handlers.all_raises_classified _ (eq_refl : forallb Handlers.raise_ok RaiseSites.lib_raise_sites = true)). Qed.
+Print Assumptions C01_every_lib_raise_is_classified.
+
+(* operator / attribute-access methods of lib classes, which the translator does not follow, raise nothing *)
+Theorem C01_implicit_methods_do_not_raise : forallb Handlers.m_summary_empty RaiseSites.implicit_methods = true.
+Proof. vm_compute. reflexivity. Qed.
+Print Assumptions C01_implicit_methods_do_not_raise.
+
+(* non-vacuity: the rows that the property is about are in the table, with the handler that turns them into a tag *)
+Example C01_ex_zero_division_tagged :
+  existsb (fun s => Handlers.site_is "lib/check/__init__.py" "Checker.check_plurals" "Expression.__call__" "ZeroDivisionError" s
+                    && Handlers.caught_with Handlers.HTag s) RaiseSites.checker_sites = true.
+Proof. vm_compute. reflexivity. Qed.
+Example C01_ex_overflow_tagged :
+  existsb (fun s => Handlers.site_is "lib/check/__init__.py" "Checker.check_plurals" "Expression.__call__" "OverflowError" s
+                    && Handlers.caught_with Handlers.HTag s) RaiseSites.checker_sites = true.
+Proof. vm_compute. reflexivity. Qed.
+Example C01_ex_plural_syntax_tagged :
+  existsb (fun s => Handlers.site_is "lib/check/__init__.py" "Checker.check_plurals" "gettext.parse_plural_forms" "gettext.PluralExpressionSyntaxError" s
+                    && Handlers.caught_with Handlers.HTag s) RaiseSites.checker_sites = true.
+Proof. vm_compute. reflexivity. Qed.
+Example C01_ex_date_syntax_tagged :
+  existsb (fun s => Handlers.site_is "lib/check/__init__.py" "Checker.check_dates" "gettext.fix_date_format" "gettext.DateSyntaxError" s
+                    && Handlers.caught_with Handlers.HTag s) RaiseSites.checker_sites = true.
+Proof. vm_compute. reflexivity. Qed.
+Example C01_ex_fix_codes_tagged :
+  existsb (fun s => Handlers.site_is "lib/check/__init__.py" "Checker.check_language" "Language.fix_codes" "ling.FixingLanguageCodesFailed" s
+                    && Handlers.caught_with Handlers.HTag s) RaiseSites.checker_sites = true.
+Proof. vm_compute. reflexivity. Qed.
+Example C01_ex_mo_syntax_tagged :
+  existsb (fun s => Handlers.site_is "lib/check/__init__.py" "Checker.check" "polib.mofile" "moparser.SyntaxError" s
+                    && Handlers.caught_with Handlers.HTag s) RaiseSites.checker_sites = true.
+Proof. vm_compute. reflexivity. Qed.
+Example C01_ex_c_format_error_tagged :
+  existsb (fun s => Handlers.site_is "lib/check/msgformat/c.py" "Checker.check_string" "FormatString.__init__" "strformat.c.Error" s
+                    && Handlers.caught_with Handlers.HTag s) RaiseSites.checker_sites = true.
+Proof. vm_compute. reflexivity. Qed.
+Example C01_ex_xml_error_tagged :
+  existsb (fun s => Handlers.site_is "lib/check/__init__.py" "Checker._check_message_xml_format" "xml.check_fragment" "xml.parsers.expat.ExpatError" s
+                    && Handlers.caught_with Handlers.HTag s) RaiseSites.checker_sites = true.
+Proof. vm_compute. reflexivity. Qed.
+Example C01_ex_table_size : (100 <=? N.of_nat (List.length RaiseSites.checker_sites))%N = true /\ (100 <=? N.of_nat (List.length RaiseSites.lib_raise_sites))%N = true.
+Proof. vm_compute. split; reflexivity. Qed.
